@@ -943,6 +943,53 @@ def directed_histories():
                 out.append(run_history(json.loads(json.dumps(d)), [[12], [7]], ops=ops, driver="directed"))
             except BUILD_ERRORS:
                 pass
+    # ---- garbage collection of an OLD canvas while a NEWER one for the same leaf key is cached: keep canvas A, change the leaf,
+    #      render the same tree under another ancestor key (focus flag / one more row) so that the leaf is cached again under its old
+    #      key, keep B, release A (+ gc), change the leaf again, render: the entry made for B must survive A's death ----
+    flow_trees = [["Pile", [["Text", 2, "left", "space"], ["Edit", 1, 1, False, "space"]]],
+                  ["Columns", [["Text", 2, "left", "space"], ["CheckBox", 1, False]], 1, [0, 0]],
+                  ["Padding", ["Pile", [["Text", 3, "left", "space"], ["Button", 1]]], "left", 1, 0, None],
+                  ["AttrMap", ["Pile", [["Text", 1, "left", "space"], ["Edit", 0, 2, False, "space"]]], 0, 1],
+                  ["LineBox", ["Pile", [["Text", 2, "left", "space"], ["Button", 2]]], "t"]]
+    box_trees = [["Filler", t, "top"] for t in flow_trees[:3]] + [["Frame", ["Filler", flow_trees[0], "top"], ["Text", 1, "left", "space"], None]]
+    for d, sizes in [(t, [[14], [14]]) for t in flow_trees] + [(t, [[14, 5], [14, 6]]) for t in box_trees]:
+        for t1, t2 in ((5, 1), (0, 3)):
+            for other in ("focus", "size"):
+                def ops(w, t1=t1, t2=t2, other=other):
+                    leafs = [i for i in w.attached() if w.meta[i][0] == "Text"]
+                    tgt = leafs[0] if leafs else 0
+                    s0 = w.sizes[0]
+                    sB = w.sizes[1] if other == "size" else s0
+                    fB = 1 if other == "size" else 0
+                    return [["render", 0, s0, 1, 1], ["set_text", tgt, t1], ["render", 0, sB, fB, 1], ["drop", 0], ["gc"], ["set_text", tgt, t2],
+                            ["render", 0, sB, fB, 0], ["render", 0, s0, 1, 0], ["rows", 0, s0, 0] if len(s0) == 1 else ["render", 0, s0, 0, 0], ["check"]]
+                try:
+                    out.append(run_history(json.loads(json.dumps(d)), sizes, ops=ops, driver="directed-gc"))
+                except BUILD_ERRORS:
+                    pass
+    # ---- a list box whose focus item is taller than the box: page / arrow keys move the view inside the item and back ----
+    for first in (5, 9):
+        for h in (2, 3):
+            for keys in (["page down", "page up"], ["page down", "page down", "page up", "page up"], ["down", "down", "up", "up"],
+                         ["end", "home"], ["page down", "up"]):
+                sizes = [[8, h], [8, h + 1]]
+
+                def ops(w, keys=keys):
+                    s0 = w.sizes[0]
+                    seq = [["render", 0, s0, 1, 1]]
+                    for k in keys:
+                        seq += [["key", 0, s0, k], ["render", 0, s0, 1, 1]]      # the screen keeps every frame alive: cache entries stay
+                    return seq + [["render", 0, w.sizes[1], 1, 0], ["render", 0, s0, 0, 0], ["check"]]
+                for wrap, items in [(w_, i_) for w_ in (None, "Frame", "LineBox") for i_ in (0, 1, 2)]:
+                    d = ["ListBox", [[["Text", first, "left", "space"], ["Edit", 1, 1, False, "space"], ["Text", 5, "left", "any"]],
+                                     [["Text", first, "left", "space"]],                                  # a pager: one tall, unselectable item
+                                     [["Text", first, "left", "space"], ["Text", 1, "left", "space"]]][items], "focus"]
+                    dd = d if wrap is None else (["Frame", d, ["Text", 1, "left", "space"], None] if wrap == "Frame" else ["LineBox", d, "t"])
+                    ss = sizes if wrap is None else [[s[0] + 2, s[1] + 2] for s in sizes]
+                    try:
+                        out.append(run_history(json.loads(json.dumps(dd)), ss, ops=ops, driver="directed-scroll"))
+                    except BUILD_ERRORS:
+                        pass
     return out
 
 
